@@ -46,7 +46,7 @@ const c14Pkg = "github.com/paulmach/osm/annotate"
 
 // Datasource call budgets per iteration. A walk that cuts cycles on its DFS path makes at most
 // (product of the member counts along a path) lookups per request: below 1 500 for a "small"
-// graph (<= 4 relations with history, <= 16 member slots in total); the small budget is 20x
+// graph (<= 4 relations with history, <= 16 relation-typed member slots in total); the small budget is 20x
 // that and its exhaustion is a non-termination verdict. For bigger graphs exhaustion is only
 // inconclusive. Both are kept low because a runaway recursion costs O(depth^2) in the
 // library's path scan; the rest of the case is skipped once a budget is exhausted.
@@ -76,12 +76,12 @@ type c14Graph struct {
 	desc  string // canonical text: {1>2.w7|3 2> 3!} = id>members of v1|members of v2 ; id! = no history
 	small bool   // small enough for the datasource call budget to be a non-termination verdict
 
-	hist   map[osm.RelationID]osm.Relations
-	adj    map[osm.RelationID][]osm.RelationID // distinct relation-typed refs over all versions
-	nHist  int
-	cyclic bool // some relation with history reaches itself
-	slots  int
-	reachM map[osm.RelationID]map[osm.RelationID]bool
+	hist     map[osm.RelationID]osm.Relations
+	adj      map[osm.RelationID][]osm.RelationID // distinct relation-typed refs over all versions
+	nHist    int
+	cyclic   bool // some relation with history reaches itself
+	relSlots int  // relation-typed member slots over all versions
+	reachM   map[osm.RelationID]map[osm.RelationID]bool
 }
 
 func (g *c14Graph) finish() {
@@ -110,9 +110,9 @@ func (g *c14Graph) finish() {
 				if k > 0 {
 					sb.WriteByte('.')
 				}
-				g.slots++
 				switch m.Type {
 				case osm.TypeRelation:
+					g.relSlots++
 					rid := osm.RelationID(m.Ref)
 					if !seen[rid] {
 						seen[rid] = true
@@ -132,7 +132,7 @@ func (g *c14Graph) finish() {
 	sb.WriteByte('}')
 	g.desc = sb.String()
 	g.reachM = map[osm.RelationID]map[osm.RelationID]bool{}
-	g.small = g.nHist <= 4 && g.slots <= 16
+	g.small = g.nHist <= 4 && g.relSlots <= 16
 	for id := range g.hist {
 		if g.reach(id)[id] {
 			g.cyclic = true
@@ -215,8 +215,8 @@ func c14ExhCount(n int) int64 {
 
 // c14ExhGraph decodes enumerated graph number gi on n relations (ids 1..n). layout 0: one
 // version, members ascending; 1: one version, members descending; 2: one member per version
-// (ascending), preceded by a version holding only a way member that carries the relation's
-// own number.
+// (ascending), preceded by a version holding way and node members that carry the number of
+// every relation of the graph (they are never edges).
 func c14ExhGraph(n int, gi int64, layout int) *c14Graph {
 	base := int64(1 + (1 << uint(n)))
 	g := &c14Graph{shape: "exh" + strconv.Itoa(n) + "l" + strconv.Itoa(layout)}
@@ -245,7 +245,11 @@ func c14ExhGraph(n int, gi int64, layout int) *c14Graph {
 			}
 			nd.versions = []osm.Members{ms}
 		default:
-			nd.versions = []osm.Members{{osm.Member{Type: osm.TypeWay, Ref: int64(nd.id)}}}
+			var noise osm.Members
+			for j := 1; j <= n; j++ {
+				noise = append(noise, osm.Member{Type: osm.TypeWay, Ref: int64(j)}, osm.Member{Type: osm.TypeNode, Ref: int64(j)})
+			}
+			nd.versions = []osm.Members{noise}
 			for _, m := range ms {
 				nd.versions = append(nd.versions, osm.Members{m})
 			}
@@ -543,7 +547,6 @@ type c14X struct {
 	sigs    map[string]bool
 	keys    map[string]bool
 	abort   bool // budget exhausted, deadlock or leak seen: skip the rest of the case
-	race    bool // race build: no datasource failures (see run)
 	trace   bool
 	sampled bool
 
@@ -690,21 +693,6 @@ func (x *c14X) run(s *c14Scn) c14Out {
 	g := s.g
 	if x.abort {
 		return c14Out{}
-	}
-	if x.race && os.Getenv("C14_RACE_ALL") == "" {
-		// Whenever the walk is cut short (cancellation, Close, datasource error) the walker
-		// stores o.err (order.go:63) while Next reads it unsynchronised (order.go:88). The
-		// property does not cover that race, and the supervisor takes the race runtime's exit
-		// status 66 for a broken child, so the race build runs only the scenarios in which no
-		// Next follows or overlaps such a store without an intervening Close: undisturbed
-		// iterations, Close sweeps, and cancellation without a further Next. C14_RACE_ALL=1
-		// lifts the restriction (development aid, e.g. to trial a fix of that race).
-		switch s.stop {
-		case "", "close", "cancel-nonext":
-		default:
-			return c14Out{}
-		}
-		s.ctxAware = false
 	}
 	if x.trace {
 		fmt.Fprintf(os.Stderr, "C14 scenario graph=%s %s\n", g.desc, s)
@@ -1135,7 +1123,7 @@ func c14Exec(c fw.Case) *fw.Result {
 		defer runtime.GOMAXPROCS(old)
 	}
 	x := &c14X{res: res, sigs: map[string]bool{}, keys: map[string]bool{}, leaked: map[string]bool{},
-		trace: os.Getenv("VERIF_CHILD") == "" || os.Getenv("C14_TRACE") != "", race: c.Variant == "race"}
+		trace: os.Getenv("VERIF_CHILD") == "" || os.Getenv("C14_TRACE") != ""}
 	from, count := c.Int("from"), c.Int("count")
 
 	switch c.Kind {
@@ -1295,7 +1283,7 @@ func init() {
 		ID:    "C14",
 		Level: "exploration",
 		Rule: "Enumerated part: every reference graph on n relations (ids 1..n) in which each relation either has no history or has any of the 2^n sets of relation members, self included " +
-			"(n<=3 in quick: 3+25+729 graphs; n=4 added in thorough: 83 521 graphs, which contain all 65 536 digraphs with self-loops), each in three member layouts (ascending, descending, one member per version behind a way member), " +
+			"(n<=3 in quick: 3+25+729 graphs; n=4 added in thorough: 83 521 graphs, which contain all 65 536 digraphs with self-loops), each in three member layouts (ascending, descending, one relation member per version behind a version of way/node members numbered like the relations), " +
 			"each iterated undisturbed for every ordered selection of its ids (all subsets, all orders, plus requests naming an id twice), and swept with Close / cancel / cancel-without-further-Next after every j=0..len+1 Next calls, " +
 			"cancel before creation, and cancel or failure inside every datasource call. Random part: PRNG graphs of 1..14 relations with histories (+<=3 ids without), 12 shapes (DAGs, chain, tree, island cycle, sparse/dense cyclic, ring, self-loops, complete), " +
 			"1-4 versions with different members, node/way members whose refs equal relation ids, refs to relations without history; request lists: all / reversed / random orders, random subsets with unknown, history-less and repeated ids, every order of a 3-subset. " +
@@ -1308,9 +1296,9 @@ func init() {
 			"a relation 'has a history' when the datasource returns at least one version; an empty history with a nil error is not generated",
 			"emitting an unrequested relation is not asserted either way (only: no id without history, no duplicates)",
 			"after Close or cancellation Next may deliver ids that were already in flight; only 'Next returns false within a bounded number of calls' and 'the goroutine ends' are asserted, the count of late ids is recorded",
-			"non-termination by endless walking is decided by a logical budget: more than 30 000 history lookups in one iteration over a graph of at most 4 relations with history and 16 member slots, which is 20 times what any walk that cuts cycles on its own path can need (bigger graphs: 60 000, inconclusive only, because re-walking cut relations can legitimately need many lookups on dense cyclic graphs); the rest of such a case is skipped",
+			"non-termination by endless walking is decided by a logical budget: more than 30 000 history lookups in one iteration over a graph of at most 4 relations with history and 16 relation-typed member slots, which is 20 times what any walk that cuts cycles on its own path can need (bigger graphs: 60 000, inconclusive only, because re-walking cut relations can legitimately need many lookups on dense cyclic graphs); the rest of such a case is skipped",
 			"a datasource that fails with another error than NotFound is outside the property: those runs must still end and Close must return, and the emitted prefix must satisfy the sequence oracles, nothing else",
-			"Err() and CompletedIndex are read but never asserted; race reports are informational (RaceIsViolation=false); the race build runs only undisturbed iterations, Close sweeps and cancel-without-further-Next, because Next after a cancellation races with the walker on o.err (order.go:63 vs :88, outside the property) and a reported race ends the child with the race runtime's exit status",
+			"Err() and CompletedIndex are read but never asserted; race reports are informational (RaceIsViolation=false); the one seen on the unchanged library is Next (order.go:88) reading o.err while the walker stores it (order.go:63) when a walk is cut short by cancellation or a datasource error",
 			"a crash of a case is a violation because the only expected crash causes are the runtime's own deadlock report (only possible where the in-process state check does not apply) and a stack overflow from an unbounded walk",
 		},
 		Cases:            c14Cases,
